@@ -134,6 +134,17 @@ else:
         process_pool_registry.register_pool_executor(other_p)
 async def go():
     chart = PipelineChart('m', build_dag(A, C))
+    if state == 'shutdown_after_run':
+        # the pools are alive for a first run of this very chart, then the needed one is shut down: the next run must fail fast too
+        if mode == 'thread':
+            threads_pool_registry.register_pool_executor(other_t)
+        else:
+            process_pool_registry.register_manager(_M()); process_pool_registry.register_pool_executor(other_p)
+        r0 = await asyncio.wait_for(chart.run(input_kwargs=dict(x=1)), timeout=20)
+        if r0.error is not None:
+            return dict(harness_error='first run failed: %r' % r0.error)
+        del CALLS[:]
+        (other_t if mode == 'thread' else other_p).shutdown()
     try:
         r = await asyncio.wait_for(chart.run(input_kwargs=dict(x=1)), timeout=20)
         return dict(value=repr(r.value), error=None if r.error is None else type(r.error).__name__, calls=CALLS)
@@ -232,7 +243,8 @@ def main():
                                                spec=case['spec']))
     # ---- (c) registry states (only one worker does it)
     if seed % 1000 == 0:
-        for mode, state in [('thread', 'never'), ('thread', 'shutdown'), ('process', 'never'), ('process', 'shutdown'), ('process', 'no_manager')]:
+        for mode, state in [('thread', 'never'), ('thread', 'shutdown'), ('process', 'never'), ('process', 'shutdown'), ('process', 'no_manager'),
+                            ('thread', 'shutdown_after_run'), ('process', 'shutdown_after_run')]:
             for variant in ('plain', 'default', 'retry'):
                 try:
                     p = subprocess.run([sys.executable, '-c', REGISTRY_SCRIPT, state, mode, variant], env=env, stdout=subprocess.PIPE, stderr=subprocess.PIPE,
@@ -261,7 +273,7 @@ def main():
                           rule='(a) programs of the proved fragments grown by harness/gen.py, each run under 3 random assignments of the five execution modes '
                                '(coroutine gated / coroutine immediate / non_async inline / thread pool / process pool) and random schedules on the virtual loop, '
                                'each outcome against the reference semantics and the extracted model; (b) a sample of such programs on a real asyncio loop with a '
-                               'real ThreadPoolExecutor and a real fork ProcessPoolExecutor against the reference; (c) 15 registry states x node variants in '
+                               'real ThreadPoolExecutor and a real fork ProcessPoolExecutor against the reference; (c) 21 registry states x node variants (incl. a pool shut down between two runs of one chart) in '
                                'fresh subprocesses (pool never registered / shut down / no manager; plain, use_default, retry); non-trivial = every (a) case; '
                                'distinct = distinct (program with modes, action list)')))
 
